@@ -193,7 +193,7 @@ func genC19(rt *rapid.T, h *harness.H) interface{} {
 	d := gen.D{T: rt}
 	c := &caseC19{}
 	np := d.Int(2, 5, "nprogs")
-	if d.Chance(45, "family") {
+	if d.Chance(55, "family") {
 		// a family: one program and variants of it that keep its names (type, function, channel
 		// names) but change a definition or a term, so that whatever a run leaves behind under a name
 		// meets another meaning of that name
@@ -203,7 +203,7 @@ func genC19(rt *rapid.T, h *harness.H) interface{} {
 		}
 		c.Progs = append(c.Progs, progC19{Text: p.Text(nil), Class: "accept", Contraction: hasContraction(p)})
 		for i := 1; i < np; i++ {
-			kind := d.Of([]string{"typedef-change", "typedef-change", "ann-inequivalent", "wrong-label", "swap-send-args", "ret-mode"}, "famkind")
+			kind := d.Of([]string{"typedef-change", "typedef-change", "typedef-change", "ann-inequivalent", "wrong-label", "swap-send-args", "ret-mode"}, "famkind")
 			q, _, ok := d.Mutate(p, kind)
 			if !ok {
 				continue
